@@ -84,8 +84,12 @@ def scenario(args):
         ev.append(dict(k="ctor", o=i + 1, post=rfapi.state(chip)))
     for o in order:
         obj, kind = objs[o], kinds[o]
-        obj.__enter__()
-        ev.append(dict(k="enter", o=o + 1, post=rfapi.state(chip)))
+        exc = "none"
+        try:
+            obj.__enter__()
+        except Exception as e:  # noqa  (a cached value that cannot be restored at all)
+            exc = type(e).__name__
+        ev.append(dict(k="enter", o=o + 1, post=rfapi.state(chip), exc=exc))
         calls = block_calls(kind, rng, rng.randrange(0, 7))
         if fixed is not None and not script:
             calls = list(fixed)
